@@ -168,9 +168,11 @@ func (vc VisitorContext) visitBranchNode(branchNode *jet.BranchNode) {
 }
 
 func (vc VisitorContext) visitYieldNode(yieldNode *jet.YieldNode) {
-	for _, node := range yieldNode.Parameters.List {
-		if node.Expression != nil {
-			vc.visitNode(node.Expression)
+	if yieldNode.Parameters != nil {
+		for _, node := range yieldNode.Parameters.List {
+			if node.Expression != nil {
+				vc.visitNode(node.Expression)
+			}
 		}
 	}
 	if yieldNode.Expression != nil {
